@@ -5,7 +5,8 @@ from . import tlc, progs, engine
 from .engine import ToolError, log, WORK, EVIDENCE, BIN
 from .small import save
 
-KEYS = {"f1", "f2", "x1", "n1", "n2", "s1", "s2"}
+KEYS = {"f1", "f2", "x1", "n1", "n2", "s1", "s2", "n3"}      # n3: the name of n1 with another system type
+MC_KEYS = {"f1", "x1", "n1", "n3", "s1", "s2"}             # exhaustive model check: one key of every kind (two spawned ids, two systems under one name)
 
 def program_of(hist):
     calls, scripts = [], {}
@@ -80,13 +81,13 @@ def check_c17(tier, seed):
     os.makedirs(wd)
     build_s = engine.build_harness()
     quick = tier == "quick"
-    consts = dict(Keys=KEYS, MaxCalls=3 if quick else 4, MaxOps=2, MaxDepth=3, Mutants=set())
+    consts = dict(Keys=MC_KEYS, MaxCalls=3 if quick else 4, MaxOps=2, MaxDepth=3, Mutants=set())
     cfg = os.path.join(wd, "SC.cfg")
     tlc.write_cfg(cfg, "Spec", consts, invariants=["TypeOK"], view="View")
     mc = tlc.run("Syscall.tla", cfg, os.path.join(wd, "mc"), workers=12, timeout=300 if quick else 1500, cache=True)
     if mc.error:
         raise ToolError("TLC error in Syscall.tla:\n" + mc.error)
-    gconsts = dict(consts, MaxCalls=6 if quick else 8, MaxOps=3, MaxDepth=4)
+    gconsts = dict(consts, Keys=KEYS, MaxCalls=6 if quick else 8, MaxOps=3, MaxDepth=4)
     gcfg = os.path.join(wd, "SCG.cfg")
     tlc.write_cfg(gcfg, "Spec", gconsts, invariants=["Emitted"])
     num = 1500 if quick else 20000
